@@ -51,6 +51,13 @@ func harness(cfgJSON json.RawMessage) sched.Harness {
 		defer lab.RemoveAll(dir)
 		net := lab.NewNet()
 		net.Spawn = e.Spawner()
+		// GET /export: the handler runs as its own thread H (it and the client S, which consumes the body page by page,
+		// are both scheduling-point sources and must not share one thread).
+		hch := make(chan func(), 1)
+		if cfg.Op == "export-http" {
+			net.Spawn = func(fn func()) { hch <- fn }
+			e.Go("H", func(th *sched.Thread) { (<-hch)() })
+		}
 		n, err := lab.StartPrimary(dir, lab.NodeConfig{Net: net})
 		if err != nil {
 			return "harness-error:" + err.Error(), nil
@@ -95,11 +102,11 @@ func harness(cfgJSON json.RawMessage) sched.Harness {
 			defer cancel()
 			switch cfg.Op {
 			case "snapshot":
-				hdr, trl, err := db.WriteSnapshotTo(ctx, &sBytes)
+				hdr, trl, err := db.WriteSnapshotTo(ctx, &pointWriter{th: th, w: &sBytes, every: ps})
 				sErr = err
 				sPos = pos{uint64(hdr.MaxTXID), uint64(trl.PostApplyChecksum)}
 			case "export":
-				p, err := db.Export(ctx, &sBytes)
+				p, err := db.Export(ctx, &pointWriter{th: th, w: &sBytes, every: ps})
 				sErr = err
 				sPos = pos{uint64(p.TXID), uint64(p.PostApplyChecksum)}
 			case "export-http":
@@ -107,7 +114,7 @@ func harness(cfgJSON json.RawMessage) sched.Harness {
 				cl.HTTPClient = &http.Client{Transport: net.Transport("client")}
 				rc, err := cl.Export(ctx, "http://P", "db")
 				if err == nil {
-					_, err = io.Copy(&sBytes, rc)
+					_, err = io.Copy(&pointWriter{th: th, w: &sBytes, every: ps}, rc)
 					rc.Close()
 				}
 				sErr = err
@@ -381,4 +388,24 @@ func replay(t *testing.T, reg sched.Registry, path string) {
 		os.Exit(1)
 	}
 	os.Exit(0)
+}
+
+
+// pointWriter makes the consumer of a snapshot or export a scheduling point: the thread parks each time another
+// `every` bytes (one page) have been produced, so that writers and checkpointers can run between any two pages
+// of the output - a slow HTTP client or backup upload does exactly that.
+type pointWriter struct {
+	th    *sched.Thread
+	w     io.Writer
+	every int
+	n     int
+}
+
+func (p *pointWriter) Write(b []byte) (int, error) {
+	before := p.n / p.every
+	p.n += len(b)
+	if p.n/p.every != before {
+		p.th.Point(fmt.Sprintf("output at %d bytes", p.n))
+	}
+	return p.w.Write(b)
 }
